@@ -8,6 +8,7 @@ import Driver.Futures
 import Driver.Launcher
 import Driver.PortsOut
 import Driver.Persister
+import Driver.Persist
 
 /-- `pmodel <component>`: line-protocol driver over the executable model definitions. -/
 def main (args : List String) : IO UInt32 := do
@@ -22,4 +23,6 @@ def main (args : List String) : IO UInt32 := do
   | ["launcher"] => DrvLauncher.main; return 0
   | ["portsout"] => DrvPortsOut.main; return 0
   | ["persister"] => DrvPersister.main; return 0
-  | _ => IO.eprintln "usage: pmodel <expose|fault|futures|launcher|outline|persister|pm|ports|portsout|savable>"; return 2
+  | ["persist"] => DrvPersist.main; return 0
+  | ["restore"] => DrvPersist.mainRestore; return 0
+  | _ => IO.eprintln "usage: pmodel <expose|fault|futures|launcher|outline|persist|persister|pm|ports|portsout|restore|savable>"; return 2
